@@ -6,12 +6,6 @@ pub open spec fn is_marker_cdh(d: CoinDataHeight) -> bool {
     d.coin_data.denom == Denom::Mel && d.coin_data.value.0 == 0 && d.coin_data.additional_data@ == Seq::<u8>::empty()
     && d.coin_data.covhash == Address(spec_zero_hash()) && d.height.0 == 0
 }
-/// TIP activation rule of the repo: mainnet at the activation height, testnet at 500, custom networks always; u64::MAX = never
-pub open spec fn spec_tip(network: NetID, height: BlockHeight, activation: u64) -> bool {
-    if activation == u64::MAX { false } else if network == NetID::Mainnet { height.0 >= activation }
-    else if network == NetID::Testnet { height.0 >= 500 } else { true }
-}
-pub open spec fn spec_tip906<C: ContentAddrStore>(s: UnsealedState<C>) -> bool { spec_tip(s.network, s.height, 830000) }
 /// every field except `coins` is the same
 pub open spec fn same_but_coins<C: ContentAddrStore>(a: UnsealedState<C>, b: UnsealedState<C>) -> bool {
     a.network == b.network && a.height == b.height && a.history == b.history && a.transactions == b.transactions
